@@ -71,7 +71,7 @@ def all_callables(term):
         if n[0] == "ds":
             out.add(("body", n[1]))
             for e in dsprops(n)["effects"]:
-                out.add(("effect", e))
+                out.add(("effect", e if isinstance(e, str) else e[1]))
         elif n[0] in ("fn", "fa", "pa", "step"):
             nm = n[1]
             out.add(("pred" if nm.startswith("p_") else "fn", nm))
